@@ -35,6 +35,9 @@ def run_z3(smt2: str, want_model: list[str], timeout_ms: int = Z3_TIMEOUT_MS, se
     if seed:
         s.set("random_seed", seed)
         s.set("phase_selection", 5)
+        # retries instantiate for every term, not only for the ones the current case split makes relevant: relevancy filtering is what
+        # made a few E-matching proofs depend on the search order (found with contracts/c04_models.py: unsat under 2 of 3 seeds)
+        s.set("relevancy", 0)
     s.from_string(smt2)
     orig = list(s.assertions())  # check() may rewrite the assertion set in place
     r = s.check()
@@ -100,6 +103,38 @@ def _has_quant(t: Any) -> bool:
     return False
 
 
+Z3_CLI = "z3-new"
+
+
+def run_z3_cli(smt2: str, timeout_ms: int = Z3_TIMEOUT_MS) -> tuple[str, float, str]:
+    """The same z3 (5.1.0, the wheel's command-line binary) on the exported query, E-matching only.  Its front end
+    preprocesses a whole file differently from the API's incremental solver object; a proof found by either is a proof."""
+    import shutil
+    t0 = time.time()
+    exe = shutil.which(Z3_CLI)
+    if exe is None:
+        return "unknown", 0.0, "z3 command-line binary not found"
+    with tempfile.NamedTemporaryFile("w", suffix=".smt2", delete=False, dir=os.environ.get("PYVC_TMP", None)) as f:
+        f.write(smt2 if "(check-sat)" in smt2 else smt2 + "\n(check-sat)\n")
+        path = f.name
+    try:
+        p = subprocess.run([exe, "auto_config=false", "smt.mbqi=false", "smt.relevancy=0", f"-T:{max(1, timeout_ms // 1000)}", path], capture_output=True, text=True,
+                           timeout=timeout_ms / 1000 + 10)
+        out = (p.stdout or "").strip().splitlines()
+        verdict = out[0].strip() if out else "unknown"
+        if verdict not in ("sat", "unsat", "unknown"):
+            verdict = "unknown"
+        reason = "" if verdict == "unsat" else (p.stdout or "")[:200]
+    except subprocess.TimeoutExpired:
+        verdict, reason = "unknown", "timeout"
+    finally:
+        try:
+            os.unlink(path)
+        except OSError:
+            pass
+    return verdict, time.time() - t0, reason
+
+
 def run_cvc5(smt2: str) -> tuple[str, float, str]:
     t0 = time.time()
     text = "(set-logic ALL)\n" + smt2
@@ -138,6 +173,13 @@ def solve_one(args: tuple[str, str, list[str], bool, str]) -> Result:
     res = Result(name, v, "z3", dt, model, reason)
     if kind == "cover":
         return res  # a cover only has to be *not refutable* quickly
+    if v == "unknown":
+        # first the command-line front end of the same solver, instantiating for every term (only `unsat` is taken from it)
+        zv, zdt, _zr = run_z3_cli(smt2)
+        dt += zdt
+        if zv == "unsat":
+            res = Result(name, "unsat", "z3", dt, {}, "z3 command-line front end")
+            v = "unsat"
     if v == "unknown":
         # E-matching proofs can be lost to an unlucky search order: before calling an obligation undischarged, retry with other
         # seeds (a proof found under any seed is a proof; `unknown` is never turned into a verdict)
